@@ -36,6 +36,8 @@ def work(item):
         return rec
     ctx, S, model = su.ctx, su.S, su.ctx.model
     r0, _ = su.D.decide(su.cons + su.pos, ladder=False)
+    if r0 != 'sat':
+        r0, _ = su.D.decide(su.cons + su.pos, ladder=True, timeout_ms=120000)      # satisfiability witness from the nlsat rung, with more time
     rec['reach'] = r0
     V = lambda n: S.var(n, 'b')
     ext = model.ExternalSector
